@@ -9,12 +9,16 @@ one() {
   rsync -a --exclude .git /repo/ "$S/repo/"
   if ! (cd "$S/repo" && patch -p1 -s --no-backup-if-mismatch < "$D" >/dev/null 2>&1); then echo "$name NOAPPLY"; rm -rf "$S"; return; fi
   if ! (cd "$S/repo" && go build -trimpath ./... >/dev/null 2>&1); then echo "$name NOBUILD"; rm -rf "$S"; return; fi
-  fired=$("${DVERIF:-$V/bin/dverif}" scan --repo "$S/repo" 2>/dev/null | awk '$2=="FIRED"{printf " %s",$1}')
+  scan=$("${DVERIF:-$V/bin/dverif}" scan --repo "$S/repo" 2>/dev/null)
+  fired=$(echo "$scan" | awk '$2=="FIRED"{printf " %s",$1}')
+  # a check that "fired" because the checker itself panicked is a defect of the checker: listed beside the matrix
+  echo "$scan" | awk -v n="$name" '$2=="FIRED" && $3=="panic"{print n, $1}' >> "$PANICS"
   echo "$name FIRED:$fired"
   rm -rf "$S"
 }
 export -f one; export V
 OUT=$1; shift
+export PANICS="$OUT.panics"; : > "$PANICS"
 # every scratch copy lives in its own directory: -trimpath lets their builds share the Go build cache; should the
 # cache have grown large all the same (sub-agents' test binaries), empty it before adding to it
 if [ "$(du -sm "$(go env GOCACHE)" 2>/dev/null | cut -f1)" -gt 40000 ] 2>/dev/null; then go clean -cache; fi
